@@ -10,8 +10,8 @@ import time
 
 VERIF = os.path.dirname(os.path.dirname(os.path.abspath(__file__)))
 RELATED = {
-    'B1': ['C01', 'C04', 'C10', 'C16', 'C05'], 'B2': ['C05', 'C13', 'C19', 'C12'], 'B3': ['C06', 'C07', 'C02'], 'B4': ['C14', 'C15', 'C09', 'C08'],
-    'B5': ['C08', 'C11', 'C03', 'C09'], 'B6': ['C20', 'C09', 'C08', 'C11'], 'B7': ['C17', 'C04', 'C13', 'C12'], 'B8': ['C18', 'C04'],
+    'B1': ['C01', 'C10'], 'B2': ['C05', 'C19'], 'B3': ['C06', 'C07'], 'B4': ['C14', 'C15'],
+    'B5': ['C08', 'C11'], 'B6': ['C20', 'C09'], 'B7': ['C17', 'C13'], 'B8': ['C18', 'C04'],
 }
 
 
